@@ -127,7 +127,23 @@ def exact_exit_loop(collect, only=None):
     def h(ex, st, node, o):
         init, cond, inc, body = ex.loop_parts(node)
         freshen(st)             # the names of an enclosing pass are kept apart from the names of this loop's pass
-        res = ex.iterate_loop(node, st.clone())
+        if node.get("kind") == "DoStmt" and cond is not None:
+            # a later pass of a do-while starts where the previous one found the condition true: assumed as a formula, WITHOUT the events an
+            # evaluation of the condition at the start of the pass would leave (it is evaluated at the END of a pass, see below)
+            def prep(ex_, s_):
+                alts = []
+                n0 = len(s_.pc)
+                ne = len(s_.events)
+                for s2, v in ex_.ev(cond, s_.clone()):
+                    # pointers the condition dereferences were not NULL when the previous pass evaluated it (that evaluation, at the end of
+                    # the pass, carries its own null-dereference obligations: assume-guarantee over the passes)
+                    nn = [tm.not_(tm.eq(e.recv, tm.num(0, "P"))) for e in s2.events[ne:] if e.name == "deref" and isinstance(e.recv, tm.T)]
+                    alts.append(tm.and_(*(list(s2.pc[n0:]) + [tm.to_bool(v)] + nn)))
+                if alts:
+                    s_.assume(tm.or_(*alts) if len(alts) > 1 else alts[0])
+            res = ex.iterate_loop(node, st.clone(), assume_cond=False, prepare=prep)
+        else:
+            res = ex.iterate_loop(node, st.clone())
         collect.setdefault(o, []).extend(res)
         if only is not None and not only(node):
             return ex.havoc_loop(node, st)
